@@ -189,8 +189,8 @@ func evaluate(c *call) (got string, obj slip.Object, err *lisp.Err) {
 
 func judge(c *call) verdict {
 	w := expect(c, mutNone)
-	if c.test == "not" || c.count == "nil" {
-		w.orErr = true
+	if c.test == "not" && family(c.fn) != famAdjoin || c.count == "nil" {
+		w.orErr = true // pushnew is the one function that documents :test-not
 	}
 	got, obj, err := evaluate(c)
 	v := verdict{got: got}
@@ -203,10 +203,12 @@ func judge(c *call) verdict {
 		v.kind = "bad-callback-arguments"
 	case err != nil:
 		v.got = "ERR " + err.String()
-		if !w.orErr {
+		if !w.orErr && !w.mustErr {
 			// the condition class is part of the kind so that two different rejections are not merged when shrinking
 			v.kind = "error-instead-of-value(" + err.Class + ")"
 		}
+	case w.mustErr:
+		v.kind = "value-instead-of-error"
 	case w.truthy != nil:
 		if lisp.Truthy(obj) != *w.truthy {
 			v.kind = "wrong-truth-value"
@@ -264,7 +266,7 @@ func reductions(c *call) []func(*call) bool {
 		func(d *call) bool { ok := d.hasStart2; d.hasStart2, d.start2 = false, 0; return ok },
 		func(d *call) bool { ok := d.hasEnd; d.hasEnd, d.endNil = false, false; return ok },
 		func(d *call) bool {
-			ok := d.hasStart && family(d.fn) != famSubseq
+			ok := d.hasStart && family(d.fn) != famSubseq && family(d.fn) != famElt && family(d.fn) != famMake
 			if ok {
 				d.hasStart, d.start = false, 0
 			}
@@ -280,6 +282,17 @@ func (c *call) valid() bool {
 		switch c.fn {
 		case "remove-duplicates", "delete-duplicates", "union", "nunion", "intersection", "nintersection":
 			return false
+		}
+	}
+	if family(c.fn) == famAdjoin {
+		if c.pred == "pairs" && (c.key || c.test == "lam" || c.test == "notlam") {
+			return false // whole pairs are compared by equality only
+		}
+		if c.pred == "nums" && c.key {
+			return false
+		}
+		if c.fn == "adjoin" && (c.test == "not" || c.test == "notlam") {
+			return false // adjoin documents no :test-not
 		}
 	}
 	if family(c.fn) == famMerge {
@@ -329,6 +342,24 @@ func candidates(c *call) []*call {
 			}
 		}
 	}
+	// drop one whole sequence argument where the function argument is written for any number of them
+	if f := family(c.fn); (f == famMapL || f == famMap || f == famMapInto) && (c.pred == "tuple" || c.pred == "acc" || c.pred == "last" || c.pred == "filt") {
+		lo := 0
+		if f == famMapInto {
+			lo = 1 // sequence 0 is the result sequence
+		}
+		for i := len(c.seqs) - 1; lo <= i && 1 < len(c.seqs); i-- {
+			if c.pred == "filt" && i == 0 {
+				continue
+			}
+			d := c.clone()
+			d.seqs = append(append([]string(nil), c.seqs[:i]...), c.seqs[i+1:]...)
+			d.typs = c.typs[:i] + c.typs[i+1:]
+			if d.valid() {
+				out = append(out, d)
+			}
+		}
+	}
 	// lower-case a letter
 	for i := range c.seqs {
 		for j := len(c.seqs[i]) - 1; 0 <= j; j-- {
@@ -365,6 +396,11 @@ func candidates(c *call) []*call {
 			if d.valid() {
 				out = append(out, d)
 			}
+		}
+		if c.typs[i] == 'F' {
+			d := c.clone()
+			d.typs = c.typs[:i] + "V" + c.typs[i+1:]
+			out = append(out, d)
 		}
 	}
 	if c.rtype == "vector" || c.rtype == "string" && !upper {
@@ -469,6 +505,10 @@ func (c *call) seqClass(i int) string {
 
 func posClass(v, n int) string {
 	switch {
+	case v < 0:
+		return "negative"
+	case n < v:
+		return "beyond-length"
 	case v == 0 && n == 0:
 		return "0=len"
 	case v == 0:
@@ -491,12 +531,19 @@ func (c *call) signature(kind string) string {
 	if 0 < len(c.seqs) {
 		n1 = len(c.seqs[0])
 	}
-	two := family(c.fn) == famTwo
+	two := family(c.fn) == famTwo || family(c.fn) == famSelf
 	sfx := ""
 	if two {
 		sfx = "1"
 	}
-	if c.hasStart && family(c.fn) != famSubseq {
+	switch {
+	case family(c.fn) == famElt:
+		kw = append(kw, "index="+posClass(c.start, n1))
+	case family(c.fn) == famMake:
+		if c.fn == "make-sequence" {
+			kw = append(kw, "size="+map[bool]string{true: "0", false: "positive"}[c.start == 0])
+		}
+	case c.hasStart && family(c.fn) != famSubseq:
 		kw = append(kw, "start"+sfx+"="+posClass(c.start, n1))
 	}
 	if family(c.fn) == famSubseq {
@@ -508,7 +555,11 @@ func (c *call) signature(kind string) string {
 		default:
 			var e int
 			fmt.Sscan(c.subEnd, &e)
-			kw = append(kw, "end="+posClass(e, n1))
+			if e < c.start && 0 <= e && e <= n1 {
+				kw = append(kw, "end=before-start")
+			} else {
+				kw = append(kw, "end="+posClass(e, n1))
+			}
 		}
 	}
 	if c.hasEnd {
@@ -519,7 +570,7 @@ func (c *call) signature(kind string) string {
 		}
 	}
 	if two {
-		n2 := len(c.seqs[1])
+		n2 := len(c.seqs[len(c.seqs)-1])
 		if c.hasStart2 {
 			kw = append(kw, "start2="+posClass(c.start2, n2))
 		}
@@ -541,6 +592,14 @@ func (c *call) signature(kind string) string {
 		kw = append(kw, "test=lambda")
 	case "not":
 		kw = append(kw, "test-not")
+	case "notlam":
+		kw = append(kw, "test-not=lambda")
+	}
+	if family(c.fn) == famAdjoin && c.pred == "pairs" {
+		kw = append(kw, "elements=conses")
+	}
+	if family(c.fn) == famAdjoin && c.pred == "nums" {
+		kw = append(kw, "elements=fixnums")
 	}
 	switch c.count {
 	case "":
@@ -556,8 +615,13 @@ func (c *call) signature(kind string) string {
 	if c.fromEnd {
 		kw = append(kw, "from-end")
 	}
-	if c.init {
+	if c.init && family(c.fn) == famMake {
+		kw = append(kw, "initial-element")
+	} else if c.init {
 		kw = append(kw, "initial-value")
+	}
+	if family(c.fn) == famSelf {
+		kw = append(kw, "same-object")
 	}
 	sort.Strings(kw)
 	if len(kw) == 0 {
@@ -566,6 +630,9 @@ func (c *call) signature(kind string) string {
 	extra := ""
 	if c.rtype != "" {
 		extra = " result-type=" + c.rtype
+	}
+	if len(seqs) == 0 && family(c.fn) == famMake {
+		seqs = []string{"none"}
 	}
 	return fmt.Sprintf("fn=%s seq=%s%s kw=%s kind=%s", c.fn, strings.Join(seqs, ","), extra, strings.Join(kw, ","), kind)
 }
@@ -668,7 +735,7 @@ func hits(c *call, res *engine.Result) {
 			kws++
 		}
 	}
-	mark(c.hasStart && family(c.fn) != famSubseq, "kw:start")
+	mark(c.hasStart && family(c.fn) != famSubseq && family(c.fn) != famElt && family(c.fn) != famMake, "kw:start")
 	mark(c.hasEnd, "kw:end")
 	mark(c.hasStart2, "kw:start2")
 	mark(c.hasEnd2, "kw:end2")
@@ -677,6 +744,10 @@ func hits(c *call, res *engine.Result) {
 	mark(c.count != "", "kw:count")
 	mark(c.fromEnd, "kw:from-end")
 	mark(c.init, "kw:initial-value")
+	if c.test == "not" || c.test == "notlam" {
+		res.Hit("kw:test-not")
+	}
+	hitsNew(c, res)
 	if c.fromEnd && c.count != "" && (c.hasStart || c.hasEnd) {
 		res.Hit("combo:from-end+count+bounds")
 	}
@@ -722,5 +793,87 @@ func hasTies(c *call, els []el) bool {
 
 func famName(f fam) string {
 	return [...]string{"none", "item", "if", "substitute", "substitute-if", "duplicates", "reverse", "two-sequence", "subseq", "fill",
-		"sort", "merge", "set", "quantifier", "map", "reduce", "concatenate"}[f]
+		"sort", "merge", "set", "quantifier", "map", "reduce", "concatenate", "list-mapping", "map-into", "adjoin", "replace-same-object",
+		"make", "elt"}[f]
+}
+
+// hitsNew: vacuity counters of the families added in the sixth round.
+func hitsNew(c *call, res *engine.Result) {
+	unequal := false
+	for i := range c.seqs {
+		unequal = unequal || len(c.seqs[i]) != len(c.seqs[0])
+	}
+	mixed := false
+	for i := range c.typs {
+		mixed = mixed || normTyp(c.typs[i]) != normTyp(c.typs[0])
+	}
+	switch family(c.fn) {
+	case famMapL, famMap, famQuant, famMapInto:
+		if family(c.fn) == famQuant && c.typs[0] == 'F' {
+			res.Hit("fill-pointer:quantifier")
+		}
+		if len(c.seqs) == 3 {
+			res.Hit("arity:3-sequences")
+			if unequal {
+				res.Hit("arity:3-sequences-of-unequal-length")
+			}
+			if mixed && strings.ContainsRune(c.typs, 'S') && strings.ContainsRune(c.typs, 'V') && strings.ContainsAny(c.typs, "LN") {
+				res.Hit("arity:list+vector+string")
+			}
+		}
+		if family(c.fn) == famMapL {
+			res.Hit("list-mapping:" + c.fn)
+			if unequal {
+				res.Hit("list-mapping:unequal-lengths")
+			}
+			if c.pred == "filt" && strings.ContainsRune(c.seqs[0], 'b') {
+				res.Hit("list-mapping:nil-result-spliced")
+			}
+		}
+		if c.fn == "map" && c.pred == "acc" {
+			res.Hit("map:result-type-nil-calls-observed")
+		}
+	case famSet:
+		if c.fn == "set-exclusive-or" || c.fn == "nset-exclusive-or" {
+			res.Hit("set-exclusive-or")
+			if c.key {
+				res.Hit("set-exclusive-or:key")
+			}
+			if hasTies(c, c.els(0)) || hasTies(c, c.els(1)) {
+				res.Hit("set-exclusive-or:duplicates")
+			}
+		}
+	case famAdjoin:
+		res.Hit("adjoin:" + c.fn)
+		if c.shape(0) == 'p' && c.test != "" {
+			res.Hit("adjoin:test-on-conses")
+		}
+		if c.shape(0) == 'n' && c.test == "" {
+			res.Hit("adjoin:default-test-on-boxed-fixnums")
+		}
+	case famSelf:
+		s1, e1 := c.bounds(len(c.seqs[0]), mutNone)
+		s2, e2 := c.bounds2(len(c.seqs[0]))
+		if s1 < e2 && s2 < e1 && s1 != s2 && s1 < e1 && s2 < e2 {
+			if s2 < s1 {
+				res.Hit("replace-same-object:overlap-start1>start2")
+			} else {
+				res.Hit("replace-same-object:overlap-start1<start2")
+			}
+		}
+	case famElt, famSubseq:
+		if expect(c, mutNone).mustErr {
+			res.Hit("out-of-range:error-demanded")
+		}
+		if c.typs[0] == 'F' {
+			res.Hit("fill-pointer:" + c.fn)
+		}
+
+	case famRev:
+		if c.typs[0] == 'F' {
+			res.Hit("fill-pointer:" + c.fn)
+		}
+	case famMake:
+		res.Hit("make:" + c.fn)
+	}
 }
